@@ -37,3 +37,10 @@ func C39ResetControl(a *Agent) {
 	a.forwardedControl = make(map[uint64]*forwardedControlRequest)
 	a.nextControlID = 0
 }
+
+// C39NextID returns nextControlID (the id the last local request got).
+func C39NextID(a *Agent) uint64 {
+	a.controlMu.RLock()
+	defer a.controlMu.RUnlock()
+	return a.nextControlID
+}
